@@ -35,17 +35,20 @@ type Cfg struct {
 
 // Model implements space.Model.
 type Model struct {
-	Cfg      Cfg
-	full     []*world.FullNode
-	byName   map[string]*world.FullNode
-	W        *world.LW
-	Net      *world.Net
-	items    [][32]byte // item hashes (vertices or transaction)
-	itemKind string
-	seen     map[string]map[[32]byte]bool // node -> items its flashback has seen
-	sendViol []common.Violation
-	sends    map[string]int
-	counters map[string]int
+	Cfg       Cfg
+	full      []*world.FullNode
+	byName    map[string]*world.FullNode
+	W         *world.LW
+	Net       *world.Net
+	items     [][32]byte // item hashes (vertices or transaction)
+	itemKind  string
+	kinds     map[[32]byte]string // per-item kind where a run mixes kinds ("trx-settled")
+	settled   bool                // "trx-settled": the receiver has confirmed the contract at the origin
+	contract  transaction.Transaction
+	seen      map[string]map[[32]byte]bool // node -> items its flashback has seen
+	sendViol  []common.Violation
+	sends     map[string]int
+	counters  map[string]int
 	injected  bool // "then-second": the second item has been proposed at the origin
 	preBag    int
 	advDone   map[int]bool
@@ -106,6 +109,8 @@ func (m *Model) Init() {
 	m.items = nil
 	m.advDone = map[int]bool{}
 	m.injected = false
+	m.settled = false
+	m.kinds = map[[32]byte]string{}
 	m.orphanAdmitted = map[string]map[[32]byte]bool{}
 	m.expired = map[string]bool{}
 	m.evCount = 0
@@ -148,20 +153,30 @@ func (m *Model) Init() {
 			}
 		}
 		sort.Slice(m.items, func(a, b int) bool { return m.W.Ref.Name(m.items[a]) < m.W.Ref.Name(m.items[b]) })
-	case "trx":
+	case "trx", "trx-settled":
 		m.itemKind = "trx"
 		t := world.MakeTx(A, B.Addr, "gc", []byte("contract"), spice.Melange{}, 9103)
 		m.W.Ref.LabelTx("gc", t)
 		propose(t)
 		m.items = append(m.items, t.Hash)
+		m.kinds[t.Hash] = "trx"
+		m.contract = t
 	}
 	for _, it := range m.items {
 		m.seen[m.Cfg.Origin][it] = true
 	}
 }
 
+// kind returns the kind of an item ("vertex" or "trx").
+func (m *Model) kind(h [32]byte) string {
+	if k, ok := m.kinds[h]; ok {
+		return k
+	}
+	return m.itemKind
+}
+
 func (m *Model) itemName(h [32]byte) string {
-	if m.itemKind == "trx" {
+	if m.kind(h) == "trx" {
 		return m.W.Ref.TxLabels[h]
 	}
 	return m.W.Ref.Name(h)
@@ -169,9 +184,15 @@ func (m *Model) itemName(h [32]byte) string {
 
 func (m *Model) holds(n string, item [32]byte) bool {
 	f := m.byName[n]
-	if m.itemKind == "trx" {
+	if m.kind(item) == "trx" {
 		for k := range f.Cache.VerifDump() {
 			if k == "trx-"+hex.EncodeToString(item[:]) {
+				return true
+			}
+		}
+		if m.settled {
+			// once the contract was confirmed somewhere, holding the vertex that seals it counts as holding it
+			if _, err := f.Book.ReadTransactionByHash(context.Background(), item); err == nil {
 				return true
 			}
 		}
@@ -193,22 +214,22 @@ func (m *Model) onSend(msg *world.Msg) {
 	if ev, ok := m.firstBatch[bk]; !ok {
 		m.firstBatch[bk] = m.evCount
 	} else if ev != m.evCount {
-		m.sendViol = append(m.sendViol, common.Violation{Property: "C11", Predicate: "C11.once", Key: "C11.forwarded-in-two-batches/" + m.itemKind,
+		m.sendViol = append(m.sendViol, common.Violation{Property: "C11", Predicate: "C11.once", Key: "C11.forwarded-in-two-batches/" + m.kind(item),
 			What: fmt.Sprintf("node %s forwarded %s again (to %s) although it had already forwarded it earlier", msg.From, name, msg.To)})
 	}
 	k := fmt.Sprintf("%s>%s:%s", msg.From, msg.To, name)
 	m.sends[k]++
 	if m.sends[k] > 1 {
-		m.sendViol = append(m.sendViol, common.Violation{Property: "C11", Predicate: "C11.once", Key: "C11.forwarded-twice/" + m.itemKind,
+		m.sendViol = append(m.sendViol, common.Violation{Property: "C11", Predicate: "C11.once", Key: "C11.forwarded-twice/" + m.kind(item),
 			What: fmt.Sprintf("node %s sent %s to %s %d times", msg.From, name, msg.To, m.sends[k])})
 	}
 	for _, v := range valid {
 		if v == msg.To {
-			m.sendViol = append(m.sendViol, common.Violation{Property: "C11", Predicate: "C11.not-to-verified", Key: "C11.sent-to-verified-gossiper/" + m.itemKind,
+			m.sendViol = append(m.sendViol, common.Violation{Property: "C11", Predicate: "C11.not-to-verified", Key: "C11.sent-to-verified-gossiper/" + m.kind(item),
 				What: fmt.Sprintf("node %s sent %s to %s although %s is a validly listed gossiper", msg.From, name, msg.To, msg.To)})
 		}
 	}
-	if m.itemKind == "vertex" && !m.holds(msg.From, item) {
+	if m.kind(item) == "vertex" && !m.holds(msg.From, item) {
 		m.sendViol = append(m.sendViol, common.Violation{Property: "C11", Predicate: "C11.after-accept", Key: "C11.forwarded-before-accept/vertex",
 			What: fmt.Sprintf("node %s forwarded %s which its own ledger does not hold", msg.From, name)})
 	}
@@ -219,7 +240,7 @@ func (m *Model) onSend(msg *world.Msg) {
 		}
 	}
 	if !self {
-		m.sendViol = append(m.sendViol, common.Violation{Property: "C11", Predicate: "C11.signed", Key: "C11.forwarded-without-own-signature/" + m.itemKind,
+		m.sendViol = append(m.sendViol, common.Violation{Property: "C11", Predicate: "C11.signed", Key: "C11.forwarded-without-own-signature/" + m.kind(item),
 			What: fmt.Sprintf("node %s forwarded %s without a valid own gossiper entry", msg.From, name)})
 	}
 }
@@ -248,6 +269,9 @@ func (m *Model) Enabled() []string {
 	}
 	if m.Cfg.Items == "then-second" && !m.injected && m.quiescent() {
 		out = append(out, "I:0")
+	}
+	if m.Cfg.Items == "trx-settled" && !m.settled {
+		out = append(out, "C:0")
 	}
 	if m.Cfg.Expire {
 		for i, f := range m.full {
@@ -355,6 +379,32 @@ func (m *Model) apply(e string) (res string, direct [32]byte, node string) {
 		for _, v := range s.Vertices {
 			if m.W.Ref.TxLabels[v.Transaction.Hash] == "g2" {
 				m.items = append(m.items, v.Hash)
+				m.seen[m.Cfg.Origin][v.Hash] = true
+				return "ok", v.Hash, m.Cfg.Origin
+			}
+		}
+		return "ok", direct, ""
+	case "C":
+		// the receiver confirms the awaiting contract at the origin: the vertex sealing it is gossiped, every node
+		// that admits it takes the transaction off its awaiting list (late transaction messages may still be in flight)
+		m.settled = true
+		origin := m.byName[m.Cfg.Origin]
+		pt, err := transformers.TrxToProtoTrx(world.CounterSign(m.contract, world.Cast("B")))
+		if err != nil {
+			panic(err)
+		}
+		if _, err := origin.Notary.Confirm(context.Background(), pt); err != nil {
+			return "error", direct, ""
+		}
+		vsched.Settle()
+		s := origin.Book.VerifSnapshot()
+		for _, v := range s.Vertices {
+			m.W.Ref.Learn(v)
+		}
+		for _, v := range s.Vertices {
+			if v.Transaction.Hash == m.contract.Hash {
+				m.items = append(m.items, v.Hash)
+				m.kinds[v.Hash] = "vertex"
 				m.seen[m.Cfg.Origin][v.Hash] = true
 				return "ok", v.Hash, m.Cfg.Origin
 			}
@@ -504,7 +554,7 @@ func (m *Model) Key() string {
 		fb = append(fb, k)
 	}
 	sort.Strings(fb)
-	k := strings.Join(parts, " ") + " BAG[" + strings.Join(bag, " ") + "] EXP[" + strings.Join(exp, ",") + "] FWD[" + strings.Join(fb, ",") + "]" + fmt.Sprintf(" INJ=%v", m.injected)
+	k := strings.Join(parts, " ") + " BAG[" + strings.Join(bag, " ") + "] EXP[" + strings.Join(exp, ",") + "] FWD[" + strings.Join(fb, ",") + "]" + fmt.Sprintf(" INJ=%v SET=%v", m.injected, m.settled)
 	h := sha256.Sum256([]byte(k))
 	return hex.EncodeToString(h[:12])
 }
@@ -575,7 +625,7 @@ func (m *Model) Check(e, res string) []common.Violation {
 		// expected: nothing if the node has seen the item before or is validly listed; otherwise (if it accepted) all peers not validly listed
 		firstTime := m.lastFirst
 		var want []string
-		if firstTime && !inValid[n] && (m.itemKind == "trx" || m.holds(n, item)) && res == "ok" {
+		if firstTime && !inValid[n] && (m.kind(item) == "trx" || m.holds(n, item)) && res == "ok" {
 			for _, nb := range m.neighbours(n) {
 				if !inValid[nb] {
 					want = append(want, nb)
@@ -598,7 +648,7 @@ func (m *Model) Check(e, res string) []common.Violation {
 				cause = "sent-to-listed-or-twice"
 			}
 			prop := m.Cfg.Prop
-			out = append(out, common.Violation{Property: prop, Predicate: prop + ".decision", Key: prop + ".forward-set-differs/" + cause + "/" + m.itemKind,
+			out = append(out, common.Violation{Property: prop, Predicate: prop + ".decision", Key: prop + ".forward-set-differs/" + cause + "/" + m.kind(item),
 				What: fmt.Sprintf("node %s handling %s (valid gossipers %v, %d entries): forwarded to %v, reference says %v", n, m.itemName(item), valid, len(msg.Gossipers()), sentTo, want)})
 		}
 	}
@@ -622,7 +672,7 @@ func (m *Model) Check(e, res string) []common.Violation {
 							}
 						}
 					}
-					out = append(out, common.Violation{Property: prop, Predicate: prop + ".everyone", Key: prop + ".not-reached/" + cause + "/" + m.itemKind,
+					out = append(out, common.Violation{Property: prop, Predicate: prop + ".everyone", Key: prop + ".not-reached/" + cause + "/" + m.kind(it),
 						What: fmt.Sprintf("at quiescence node %s does not hold %s (origin %s)", n, m.itemName(it), m.Cfg.Origin)})
 				}
 			}
@@ -632,3 +682,21 @@ func (m *Model) Check(e, res string) []common.Violation {
 }
 
 func (m *Model) holdsNow(n string, item [32]byte) bool { return m.holds(n, item) }
+
+// Describe lists the messages of the virtual network with their delivery state and valid gossipers (debug aid).
+func (m *Model) Describe() string {
+	var out []string
+	for _, msg := range m.Net.Bag {
+		it := msg.Item()
+		out = append(out, fmt.Sprintf("#%d %s>%s %s delivered=%d valid=%v entries=%d", msg.ID, msg.From, msg.To, m.itemName(it), msg.Delivered, world.ValidGossipers(it, msg.Gossipers()), len(msg.Gossipers())))
+	}
+	for _, n := range m.Cfg.Nodes {
+		var seen []string
+		for it := range m.seen[n] {
+			seen = append(seen, m.itemName(it))
+		}
+		sort.Strings(seen)
+		out = append(out, fmt.Sprintf("node %s seen=%v expired=%v", n, seen, m.expired[n]))
+	}
+	return strings.Join(out, "\n")
+}
